@@ -7,6 +7,12 @@ number of rejections; per attempt every documented outcome must have the same we
 attempt after a rejection must be the same map as a fresh one.  Cryptographic sizes (EC scalars,
 DSA x, FIPS nonces, RSA/DSA generation, blinding factors) are driven with boundary tapes around the
 accept/reject edge and compared with a plain reference rejection sampler on the same bytes.
+
+The thorough tier additionally drives (see _more_entry_points / _more_consumers): the Miller-Rabin base
+draws of Crypto.Math.Primality and Crypto.Util.number (outcome = the recorded bases), number.getPrime,
+the non-zero padding octets of PKCS#1 v1.5 encryption, call sequences on one StrongRandom object, other
+population types, negative / beyond-64-bit lower bounds, three-byte first attempts (2^24 tapes) of seven
+samplers, and boundary tapes for the prime generators, getStrongPrime, ElGamal and HPKE ephemeral keys.
 """
 import itertools
 import time
@@ -23,8 +29,9 @@ RULE = ("a case is one sampler call (function, back-end/variant, bounds) togethe
         "evaluations = executions of the real sampler on a tape prefix; a case is non-trivial when its tree has both "
         "accepting leaves and (where the range is not a power of two) rejected prefixes; distinct_nontrivial counts "
         "distinct (function, back-end, request shape per attempt, rejection-rate class, rejection depth explored) "
-        "classes actually observed; cryptographic sizes: one case per (consumer, curve/size, boundary tape)")
-BUDGET = {"quick": 240, "thorough": 2400}
+        "classes actually observed; for the Miller-Rabin and PKCS#1 v1.5 padding cases the outcome is the recorded draw (bases, "
+        "padding octets), not the caller-visible result; cryptographic sizes: one case per (consumer, curve/size, boundary tape)")
+BUDGET = {"quick": 240, "thorough": 3000}
 
 MAX_ATTEMPT_NODES = 70000       # a single attempt is enumerated completely only up to this many tapes
 
@@ -103,6 +110,8 @@ def check_single(spec, limit, maxdepth, cross, acc):
 
     try:
         _single(tg, limit, maxdepth, cross, acc, viol)
+        if tg.notes:
+            acc.observe(tg.notes[0])
     except Diverged as e:
         viol("not-a-function-of-the-tape", "replaying a recorded tape prefix the sampler behaved differently (%s)" % e)
     except TooWide as e:
@@ -277,6 +286,9 @@ def _single(tg, limit, maxdepth, cross, acc, viol):
     acc.seen("classes", (tg.fam, tg.variant, shape, rate, depth, crossed))
     acc.seen("configs", tg.spec)
     acc.count("depth%d_configs" % depth)
+    if tg.spec == ("getprime", 2):
+        acc.observe("number.getPrime(2) always returns 3: candidates are getRandomNBitInteger(N) | 1, so the 2-bit prime 2 is never "
+                    "produced (documented as 'a random N-bit prime'; every produced value is an N-bit prime)")
     if crossed:
         acc.count("cross_configs")
     if opens:
@@ -308,6 +320,8 @@ def check_tree(spec, extra, acc):
     b0 = BYPASS[0]
     try:
         _tree(tg, extra, acc, viol)
+        if tg.notes:
+            acc.observe(tg.notes[0])
     except Diverged as e:
         viol("not-a-function-of-the-tape", "replaying a recorded tape prefix the call behaved differently (%s)" % e)
     except TooWide as e:
@@ -385,7 +399,7 @@ def _tree(tg, extra, acc, viol):
 def sharded_part(spec, firsts, acc):
     """enumerate the attempt tapes whose first byte is in `firsts`; -> records via acc.seen('rle', ...)"""
     tg = make_target(spec)
-    leaves, opens, n = expand(tg.run, (), 1 if spec[0] == "grb" else 2, tg.tapecls, first=set(firsts),
+    leaves, opens, n = expand(tg.run, (), 1 if spec[0] in ("grb", "randrange", "randint") else 2, tg.tapecls, first=set(firsts),
                               max_nodes=1 << 25)
     acc.count("evaluations", n)
     acc.count("tapes", len(leaves) + len(opens))
@@ -588,6 +602,21 @@ def _predict(spec, limit, maxdepth, cross):
         Tn = 256 ** max(1, _bytes_for_bits(bits))
         rej = (Tn * ((1 << bits) - 1 - nm) >> bits) if bits else 0
         unit = 8
+    elif k in ("mr", "rmt"):
+        nm = spec[1] - (4 if k == "mr" else 3)
+        bits = max(1, nm.bit_length())
+        Tn = 256 ** _bytes_for_bits(bits)
+        rej = Tn * ((1 << bits) - 1 - nm) >> bits
+        if nm <= 0:
+            return 200
+        unit = 190 if k == "mr" else 18
+    elif k == "getprime":
+        N = spec[1]
+        Tn = 256 ** max(1, _bytes_for_bits(N - 1))
+        rej = Tn - Tn * 3 // (2 * N)            # rough prime density among the odd N-bit numbers
+        unit = 10 if N <= 10 else int(10 * 1.5 ** (N - 10))     # isPrime walks the sieve of 10000 primes
+    elif k == "ps15":
+        Tn, rej, unit = 256, 1, 160
     else:
         return 1000
     tot = Tn
@@ -742,10 +771,120 @@ def build_jobs(q):
         bigtree(("shuffle", "randfunc", 2), 2, 4300000 * 10)
         bigtree(("sample", "randfunc", 5, 3), 0, 17000000 * 10)
         bigtree(("sample", "randfunc", 5, 2), 1, 17000000 * 10)
+    if not q:
+        _more_entry_points(single, J, L_SMALL, L_FULL, L_DEEP)
     # ---- F: cryptographic sizes
     for spec in consumer_specs(q):
-        J.append((("consumer", spec), 900000 if spec[0] == "rsagen" else (60000 if spec[0] in ("dsasig", "dsagen", "blind", "dsafull") else 8000)))
+        J.append((("consumer", spec), _consumer_cost(spec)))
     return J
+
+
+MR_TWO_BYTE = (257, 299, 511, 513, 1023, 1025, 4095, 4097, 32767, 32769, 65535)       # n - 4 (odd), 9..16 bits
+MR_PAIR_PRIMES = (7, 11, 13, 17, 19, 23, 29, 31, 37, 61, 67, 127, 131, 251, 257)
+RMT_TWO_BYTE = sorted(set(range(256, 301, 2)) | set((1 << k) + d for k in range(9, 17) for d in (-2, 0, 2) if (1 << k) + d <= 65535))
+BIG = 1 << 64
+OFFSETS = (-3, -2, -1, BIG + 1, -BIG)
+RR_STEPS = (4, 5, 7, 8, 16, 255, 256, 257)
+RR_COUNTS = (1, 2, 3, 5, 7, 8, 9, 127, 128, 129, 255)
+PS15_PAIRS = ((0, 5), (6, 5), (11, 0))
+
+
+SHARDED_MORE = ((("irandom", "Native", 17, False), 16), (("irandom", "Native", 24, True), 16), (("irange", "Custom", 1, 65536, True), 22),
+                (("gri", 17), 9), (("grr", 1, 65539), 9), (("randrange", "randfunc", 0, 65537, 1), 10), (("randint", "randfunc", 1, 65537), 10))
+
+
+def _op_bits(op):
+    return {"rr": lambda: op[1].bit_length(), "ch": lambda: op[1].bit_length(), "ri": lambda: (op[2] - op[1] + 1).bit_length(),
+            "grb": lambda: op[1]}[op[0]]()
+
+
+def _more_entry_points(single, J, L_SMALL, L_FULL, L_DEEP):
+    """thorough tier: entry points that draw from a caller-supplied entropy source and are not part of the quick grid, and
+    value classes (negative / beyond-64-bit lower bounds, larger steps) that the quick grid fixes to 0..3 / 1..3"""
+    from ._c18_targets import is_prime
+
+    def tree(spec, extra, cost):
+        J.append((("tree", spec, extra), cost))
+
+    def rej1(nm):              # rejected one-byte tapes of a sampler of [0, nm]
+        bits = max(1, nm.bit_length())
+        return 256 * ((1 << bits) - 1 - nm) >> bits
+    # ---- G1: Crypto.Math.Primality.miller_rabin_test (bases in [2, n-2] by Integer.random_range); ~120 us per execution
+    for n in range(7, 260, 2):
+        single(("mr", n, 1), L_SMALL, 2)
+    for n in MR_PAIR_PRIMES:
+        tree(("mr", n, 2), 0, 65536 * 300)
+    for nm in MR_TWO_BYTE:
+        single(("mr", nm + 4, 1), L_FULL, 1, cross=(nm in (299, 32769)))
+    # ---- G2: Crypto.Util.number._rabinMillerTest (distinct bases in [2, n-1] by getRandomRange)
+    for n in range(3, 258, 2):
+        single(("rmt", n, 1), L_FULL, 2)
+        if is_prime(n) and n >= 5:
+            r = rej1(n - 3)
+            tree(("rmt", n, 2), 1 if r <= 3 else 0, 65536 * 30 * (1 + (2 * r + 1 if r <= 3 else 0)))
+    for nm in RMT_TWO_BYTE:
+        single(("rmt", nm + 3, 1), L_FULL, 1, cross=(nm in (300, 512, 65534)))
+    # ---- G3: Crypto.Util.number.getPrime, every size whose primality test never draws (below the sieve limit)
+    for N in range(2, 17):
+        single(("getprime", N), L_DEEP, 2, cross=(N in (10, 16)))
+    # ---- G4: PKCS#1 v1.5 encryption padding octets (non-zero octets by rejection); ~100 us per execution
+    for mlen in (0, 5):
+        for pos in range(13 - mlen):
+            for fill in ("01", "ff", "asc"):
+                single(("ps15", pos, 1, mlen, fill), 1 << 16, 3)
+    for pos, mlen in PS15_PAIRS:
+        tree(("ps15", pos, 2, mlen, "asc"), 1, 3 * 65536 * 160)
+    # ---- G5: value classes of the existing samplers
+    for variant in ("randfunc", "rng", "module"):
+        single(("grb", variant, 0), 0, 0)
+    for start in OFFSETS:
+        for w in list(range(1, 256)) + [256, 257, 300, 301]:
+            single(("randrange", "randfunc", start, start + w, 1), L_SMALL if w <= 255 else L_FULL, 2 if w <= 255 else 1)
+        for d in list(range(1, 255)) + [255, 256, 299, 300]:
+            single(("randint", "randfunc", start, start + d), L_SMALL if d + 1 <= 255 else L_FULL, 2 if d + 1 <= 255 else 1)
+    for step in RR_STEPS:
+        for start in (-1, 0, 1):
+            for n in RR_COUNTS:
+                for r in sorted(set((1, step // 2 + 1, step))):
+                    single(("randrange", "randfunc", start, start + step * (n - 1) + r, step), L_FULL, 2)
+    for n in range(8, 33):
+        single(("choice", "randfunc", n), L_FULL, 2)
+    for ptype in ("tuple", "str", "bytes", "range"):
+        for n in range(1, 17):
+            single(("choice_t", "randfunc", n, ptype), L_FULL, 2)
+    for variant in ("rng", "module"):
+        for w in range(41, 256):
+            single(("randrange", variant, 0, w, 1), L_SMALL, 2)
+    for ptype in ("tuple", "str", "range"):
+        for n in range(1, 6):
+            for k in range(0, min(n, 2) + 1):
+                tree(("sample_t", "randfunc", n, k, ptype), 1 if k == 1 else 0, 600000)
+            for k in range(1, n + 1):
+                tree(("sample_t", "bit", n, k, ptype), _bit_extra([n.bit_length()] * k, 1 << 17), 600000)
+    # ---- G6: several calls on one StrongRandom object (histories of length 2 and 3)
+    ops = (("rr", 3), ("ch", 5), ("ri", 1, 6), ("grb", 2), ("rr", 4))
+    for a in ops:
+        for b in ops:
+            for variant in ("randfunc", "rng", "module"):
+                tree(("seq", variant, (a, b)), 0, 65536 * 12)
+            tree(("seq", "bit", (a, b)), _bit_extra([_op_bits(a), _op_bits(b)], 1 << 17), 600000)
+            for c in ops:
+                tree(("seq", "bit", (a, b, c)), _bit_extra([_op_bits(a), _op_bits(b), _op_bits(c)], 1 << 17), 600000)
+    tree(("seq", "randfunc", (("rr", 255), ("ri", 1, 254))), 1, 3 * 65536 * 12)
+    # ---- G7: the first attempt of ranges needing 17..24 bits (three entropy bytes), all 2^24 tapes, split by the first byte
+    for spec, unit in SHARDED_MORE:
+        for part in range(32):
+            J.append((("sharded", spec, tuple(range(part * 8, part * 8 + 8)), 32), 65536 * 8 * unit))
+    for be in BACKENDS:
+        for lo in OFFSETS:
+            if lo == -2:
+                continue
+            for nm in range(1, 256):
+                single(("irange", be, lo, nm, True), L_SMALL, 2)
+            for nm in (0, 1, 2, 127, 128, 254, 255):
+                single(("irange", be, lo, nm, False), L_SMALL, 2)
+            for nm in (256, 300, 511, 512, 65535):
+                single(("irange", be, lo, nm, True), L_FULL, 1)
 
 
 def _bit_extra(bits, cap):
@@ -757,6 +896,19 @@ def _bit_extra(bits, cap):
     while e < 4 and (base << (max(bits) * (e + 1))) <= cap:
         e += 1
     return e
+
+
+def _consumer_cost(spec):
+    k = spec[0]
+    if k == "rsagen":
+        return 900000
+    if k in ("elgamal", "elgblind"):
+        return 8000000 if spec[1] >= 256 else 900000
+    if k == "safeprime":
+        return 4000000
+    if k in ("dsasig", "dsagen", "blind", "dsafull", "strongprime", "safeprime", "probprime", "getprimebig", "isprime", "mrbig", "hpke"):
+        return 60000
+    return 8000
 
 
 def consumer_specs(q):
@@ -791,6 +943,8 @@ def consumer_specs(q):
             order = rsa_components(1024)["n"]
         for kd in C.head_kinds(order - 2):
             S.append(("blind", w, kd))
+    if not q:
+        S.extend(_more_consumers(C, REC))
     ks = (64, 255, 256, 521, 1024) if q else (8, 63, 64, 65, 127, 128, 255, 256, 257, 383, 384, 520, 521, 1023, 1024, 2048)
     for be in BACKENDS:
         for cv in C.P_CURVES:
@@ -806,6 +960,61 @@ def consumer_specs(q):
             for exact in (False, True):
                 for kd in C.SEED_KINDS:
                     S.append(("bigrandom", be, bits, exact, kd))
+    return S
+
+
+def _more_consumers(C, REC):
+    """thorough tier: consumers of the samplers that the quick grid does not drive"""
+    from ..keys import dsa_key, rsa_components
+    S = []
+    for bits in (1031, 1032):
+        for kd in C.RSAGEN_KINDS:
+            S.append(("rsagen", bits, kd))
+    # blinding factors on every curve / stored key size
+    for cv in C.P_CURVES:
+        if cv != "p256":
+            for kd in C.head_kinds(REC.CURVES[cv].order - 2):
+                S.append(("blind", "ECDSA/" + cv, kd))
+    for L, N in C.DSA_SIZES[1:]:
+        for kd in C.head_kinds(int(dsa_key(L, N).q) - 2):
+            S.append(("blind", "DSA/%d" % L, kd))
+    for bits in (1025, 1031, 1032, 2048):
+        for kd in C.head_kinds(rsa_components(bits)["n"] - 2):
+            S.append(("blind", "RSA/%d" % bits, kd))
+    # Miller-Rabin bases at full size (Integer.random_range and the legacy getRandomRange)
+    for w in C.MR_NUMBERS:
+        n = C._mr_number(w)[0]
+        for kd in C.head_kinds(n - 4):
+            S.append(("mrbig", w, kd))
+        for kd in C.legacy_kinds(n - 3):
+            S.append(("isprime", w, kd))
+    # prime generators
+    for bits in (160, 161, 167, 168, 169, 255, 256, 257, 511, 512, 513, 1024):
+        for kd in C.SEED_KINDS:
+            S.append(("probprime", bits, kd))
+    for bits in (161, 162, 168, 169, 192):
+        for kd in C.SEED_KINDS:
+            S.append(("safeprime", bits, kd))
+    for N in (17, 18, 24, 25, 32, 33, 64, 65, 128, 129, 255, 256, 257, 512):
+        for kd in C.SEED_KINDS:
+            S.append(("getprimebig", N, kd))
+    for N in (512, 640, 768):
+        for e in (0, 3, 65537, 65536):
+            for kd in C.STRONG_KINDS:
+                S.append(("strongprime", N, e, kd))
+    # ElGamal: key generation (private key at the edges of [2, p-2]) and the decryption blinding factor
+    for bits in (161, 256):
+        S.append(("elgamal", bits, "first-pass"))
+    for bits in (161, 256):
+        # p-4 has exactly `bits` bits, so the kinds are those of any bound of that size below 2^bits - 2
+        for kd in C.head_kinds((1 << bits) - 5):
+            S.append(("elgamal", bits, kd))
+    for kd in C.head_kinds((1 << 161) - 5):
+        S.append(("elgblind", 161, kd))
+    # HPKE sender: ephemeral key pairs are generated from the process RNG
+    for cv in C.HPKE_CURVES:
+        for kd in (C.head_kinds(REC.CURVES[cv].order - 2) if cv in C.P_CURVES else C.SEED_KINDS):
+            S.append(("hpke", cv, kd))
     return S
 
 
@@ -848,7 +1057,10 @@ def worker(jobs):
 _FAM = {"irange": "Integer.random_range", "irandom": "Integer.random", "grb": "StrongRandom.getrandbits",
         "randrange": "StrongRandom.randrange", "randint": "StrongRandom.randint", "choice": "StrongRandom.choice",
         "shuffle": "StrongRandom.shuffle", "sample": "StrongRandom.sample", "gri": "number.getRandomInteger",
-        "grn": "number.getRandomNBitInteger", "grr": "number.getRandomRange"}
+        "grn": "number.getRandomNBitInteger", "grr": "number.getRandomRange",
+        "choice_t": "StrongRandom.choice", "sample_t": "StrongRandom.sample", "seq": "StrongRandom.call-sequence",
+        "mr": "Primality.miller_rabin_test", "rmt": "number._rabinMillerTest", "getprime": "number.getPrime",
+        "ps15": "PKCS1_v1_5.padding-octets"}
 
 
 def _skip(job, acc, now):
@@ -936,6 +1148,33 @@ def run(ctx):
     ctx.require(n.get("recorded_integer_draws", 0) > 1000, "the recorder saw too few internal Integer draws")
     ctx.require(n.get("negative_step_refused", 0) + sum(1 for c in cl if c[0] == "StrongRandom.randrange") > 0, "randrange not exercised")
     ctx.require(n.get("attempt_maps_equal_reference", 0) > 100 or bool(a.obs), "reference comparison never ran")
+    if not q:
+        # the entry points and value classes that only the thorough tier drives
+        for f in ("Primality.miller_rabin_test", "number._rabinMillerTest", "number.getPrime", "PKCS1_v1_5.padding-octets",
+                  "Primality.miller_rabin_test/full-size", "number.isPrime/full-size", "number.getPrime/full-size",
+                  "number.getStrongPrime", "Primality.generate_probable_prime", "Primality.generate_probable_safe_prime",
+                  "ElGamal.generate", "HPKE-ephemeral-key"):
+            ctx.require(f in fams, "no case of %s completed" % f)
+        for f in ("Primality.miller_rabin_test", "number._rabinMillerTest", "number.getPrime", "PKCS1_v1_5.padding-octets"):
+            fc = [c for c in cl if c[0] == f and len(c) == 6]
+            ctx.require(any(c[3] > 0 for c in fc), "%s: no complete tape tree with rejected prefixes" % f)
+            ctx.require(any(c[4] >= 1 for c in fc) and any(c[5] for c in fc) or f == "PKCS1_v1_5.padding-octets" and any(c[4] >= 3 for c in fc),
+                        "%s: no attempt after a rejection was enumerated / cross-enumerated" % f)
+            ctx.require(f == "number.getPrime" or any(c[0] == f and len(c) == 5 for c in cl), "%s: no multi-draw tree completed" % f)
+        ctx.require(len(set(c[1] for c in cl if c[0] == "blinding")) >= 14, "blinding factors were not driven on every curve / key size")
+        ctx.require(set(c[1] for c in cl if c[0] == "HPKE-ephemeral-key") == set(("p256", "p384", "p521", "curve25519", "curve448")),
+                    "HPKE ephemeral keys were not generated on all five curves")
+        for f in ("ElGamal.generate", "Primality.miller_rabin_test/full-size", "number.isPrime/full-size", "HPKE-ephemeral-key"):
+            ctx.require(any(c[0] == f and c[2] == "accepted" for c in cl) and any(c[0] == f and c[2] == "rejected-first" for c in cl),
+                        "%s: boundary tapes did not reach both sides of the accept/reject edge" % f)
+        ctx.require(any(c[0] == "number.getStrongPrime" and c[2] == "accepted" for c in cl), "getStrongPrime never produced a prime from a boundary tape")
+        ctx.require("StrongRandom.call-sequence" in fams and n.get("sharded_configs", 0) == 2 + len(SHARDED_MORE),
+                    "call sequences / three-byte attempt trees did not complete")
+        ctx.require(n.get("recorded_legacy_draws", 0) > 500 and n.get("prime_candidates_checked", 0) > 1000,
+                    "the recorder saw too few getRandomRange draws / prime candidates")
+        ctx.require(sum(1 for c in a.distinct.get("configs", ()) if c[0] in ("irange", "randrange", "randint") and
+                        isinstance(c[2], int) and (c[2] < 0 or c[2] > 1 << 63)) > 3000,
+                    "negative / beyond-64-bit lower bounds were not exercised")
     ctx.coverage_extra.update({
         "evaluations": n.get("evaluations", 0),
         "complete_tapes_enumerated": n.get("tapes", 0),
@@ -969,6 +1208,46 @@ def run(ctx):
                             "getrandbits-seam (bit-level) trees: shuffle n<=4, sample n<=5 k<=n with up to 4 extra requests"
                             % ("" if q else ",17", "3" if q else "4", "2" if q else "3"),
             "legacy": "getRandomInteger 0..16, getRandomNBitInteger 1..16, getRandomRange a 0..3 x b-a 1..301",
+            **({} if q else {
+                "value classes (thorough)": "lower bounds %s: Integer.random_range (3 back-ends, min in {-3, -1, 2^64+1, -2^64}, max-min 1..255 "
+                                            "max_inclusive + 7 max_exclusive + 5 two-byte widths), randrange/randint (start/a in {-3, -2, -1, 2^64+1, "
+                                            "-2^64}, randrange width 1..257, 300, 301, randint b-a 1..256, 299, 300); randrange steps %s x start -1, 0, 1 x %d counts of choices "
+                                            "x stop at 1, step/2+1, step past the last choice; choice n 8..32; getrandbits(0) in all three variants"
+                                            % ("{-3, -2, -1, 2^64+1, -2^64}", list(RR_STEPS), len(RR_COUNTS)),
+                "further StrongRandom paths (thorough)": "choice on tuple/str/bytes/range n 1..16; sample on tuple/str/range n<=5 (byte level k<=2, "
+                                                         "getrandbits seam k<=n); randrange(w) for w 1..255 also with rng= and at module level; "
+                                                         "call sequences on ONE object: all 25 ordered pairs of {randrange(3), choice(5), randint(1,6), "
+                                                         "getrandbits(2), randrange(4)} at byte level (65536 tapes each; randfunc=, rng=, module level; one pair "
+                                                         "with one more request) and at the getrandbits seam with up to 4 extra requests (while the tree has "
+                                                         "<= 2^17 paths), all 125 triples at the seam",
+                "three-byte first attempts (thorough)": "all 2^24 tapes, split by the first byte, of: %s"
+                                                        % "; ".join(make_target(sp).name for sp, _ in SHARDED_MORE),
+                "Miller-Rabin bases": "Primality.miller_rabin_test(n, 1) with the drawn bases recorded: every odd n 7..259 (every 1-byte tape, "
+                                      "attempts after a rejection while a level has <= 2048 tapes), n-4 in %s (every 2-byte tape; cross enumeration "
+                                      "after a rejection for n-4 = 299, 32769); two iterations on the primes %s (all 65536 tapes: pairs of bases "
+                                      "uniform on [2, n-2]^2); number._rabinMillerTest(n, 1): every odd n 3..257 (limit 32768, <= 2 rejections), "
+                                      "n-3 in {256..300 even, 2^k-2, 2^k, 2^k+2 for k 9..16, <= 65535} (2-byte tapes, cross for 300, 512, 65534); two rounds on "
+                                      "every prime 5..257 (all 65536 tapes, one more request where <= 3 one-byte tapes are rejected): ordered pairs of "
+                                      "distinct bases uniform; the outcome of a case is the tuple of recorded bases; the primality verdict is compared "
+                                      "with the reference strong-probable-prime test and a disagreement would be logged as an observation (not C18)"
+                                      % (list(MR_TWO_BYTE), list(MR_PAIR_PRIMES)),
+                "number.getPrime": "N = 2..16 (every size at which isPrime decides by its sieve without drawing): every tape of the first attempt, "
+                                   "attempts after a rejected (composite) candidate while a level has <= 262144 tapes, cross enumeration for N = 10, 16; "
+                                   "outcome set = the odd N-bit primes, uniform",
+                "PKCS1_v1_5 padding": "encrypt() with a 128-bit key (k = 16): each of the 8 / 13 padding positions (message of 5 / 0 bytes) driven by "
+                                      "the tape with the other octets fixed (3 fillers): 256 tapes + 3 rejections (zero octets) deep; pairs of adjacent "
+                                      "positions, (first position, message length) in %s: all 65536 tapes plus one more request; the encryption block "
+                                      "is recovered with the private exponent"
+                                      % (list(PS15_PAIRS),),
+                "cryptographic sizes (thorough)": "boundary tapes for: RSA.generate 1025/1031/1032/2048 bits; blinding factors of ECDSA on 5 curves, DSA on 3 "
+                                                  "domains, RSA 1024/1025/1031/1032/2048, ElGamal decryption (process RNG and ElGamalKey(randfunc)); "
+                                                  "miller_rabin_test and number.isPrime on 5 primes and an RSA modulus (first base at the edges of [2, n-2] / "
+                                                  "[2, n-1]); generate_probable_prime at 12 sizes 160..1024, generate_probable_safe_prime at 5 sizes 161..192, "
+                                                  "number.getPrime at 14 sizes 17..512, number.getStrongPrime 512/640/768 x e in {0, 3, 65537, 65536} x 9 tapes "
+                                                  "for the starting point; ElGamal.generate 161/256 bits (the recorded byte prefix of a first run followed by a "
+                                                  "boundary head for the private key x in [2, p-2]); HPKE sender ephemeral keys on P-256/384/521, X25519, X448 "
+                                                  "(process RNG answering from the tape)",
+            }),
             "cryptographic sizes": "boundary tapes {0..0, 1, bound-1, bound, bound+1, F..F, reject-reject-accept, masked-off top bits set} for "
                                    "ECC.generate on 9 curves, FIPS ECDSA nonces on 5 curves, FIPS DSA nonces and DSA.generate on 3 stored "
                                    "domains, RSA.generate, blinding factors of ECDSA/DSA/RSA, Integer.random/random_range at 63..2048 bits "
@@ -987,7 +1266,12 @@ def run(ctx):
     ctx.assume("cryptographic sizes cannot be enumerated: only the listed boundary tapes (plus a deterministic fallback stream) are run; "
                "there the oracle is range + equality with the plain reference rejection sampler on the same bytes")
     ctx.assume("DSA private keys are derived by FIPS 186-4 B.1.1 (extra random bits, modulo), not by rejection: logged as an observation; "
-               "getPrime/getStrongPrime and ElGamal generation are not covered")
+               + ("getPrime/getStrongPrime, the Miller-Rabin base draws on their own, PKCS#1 v1.5 padding octets, HPKE ephemeral keys and "
+                  "ElGamal generation are covered in the thorough tier only" if q else
+                  "getPrime is enumerated completely only for N <= 16 (above, its primality test draws bases from the same tape: boundary tapes); "
+                  "getStrongPrime, generate_probable_[safe_]prime, ElGamal and HPKE only with boundary tapes; PKCS#1 v1.5 padding octets one or two "
+                  "positions at a time (the complete tree over all >= 8 positions has 256^8 tapes); Miller-Rabin with two iterations only on "
+                  "prime candidates (on composites the early exit makes the documented outcome set non-uniform by design)"))
 
 
 def replay(case, acc):
